@@ -25,12 +25,24 @@ def diagram_operands(n=2, G=3):
 TWO_DEPTH = [(5, 20), (20, 5), (12, 12), (30, 7), (9, 33), (37, 21)]
 
 
+DEEP_DIAGRAMS = [
+    [[0.0, 6.0], [1.0, 5.0], [2.0, 4.0]],
+    [[0.0, 4.0], [1.0, 6.0], [2.0, 3.0], [2.5, 5.5], [3.0, 7.0]],
+    [[0.0, 3.0], [0.0, 5.0], [1.0, 4.0], [1.0, 2.0], [2.0, 6.0], [3.0, 5.0]],
+    [[-2.0, 2.0], [-1.0, 3.0], [0.0, 1.0], [0.5, 2.5], [1.0, 4.0], [1.5, 2.0], [-1.5, 0.5]],
+]
+MULTI_DEPTH = [(5, 20, 33), (12, 12, 7, 30), (37, 9, 21, 14, 5)]
+
+
 def exact_operand_specs(tier="quick"):
     """Specs (JSON-able) of exact operands: ('dgm', bars) | ('cp', [depth lists])."""
     specs = [("dgm", d) for d in diagram_operands(2, 3)]
     hm = handmade_functions()
     specs += [("cp", [f]) for f in hm]
     specs += [("cp", [hm[i], hm[j]]) for i, j in TWO_DEPTH]
+    # landscapes with 3..7 depths (diagrams of overlapping bars without repeated bars, hand-made stacks)
+    specs += [("dgm", d) for d in DEEP_DIAGRAMS]
+    specs += [("cp", [hm[i] for i in idx]) for idx in MULTI_DEPTH]
     return specs
 
 
@@ -68,6 +80,7 @@ def approx_operand_specs(grid, tier="quick"):
     one = approx_value_sets(n, tier)
     specs = [("vals", [v]) for v in one]
     specs += [("vals", [one[i % len(one)], one[j % len(one)]]) for i, j in TWO_DEPTH]
+    specs += [("vals", [one[i % len(one)] for i in idx]) for idx in MULTI_DEPTH]
     for d in diagram_operands(2, 2 if stop <= 2 else 3):
         if all(start <= b and dd <= stop for b, dd in d):
             specs.append(("dgm", d))
